@@ -180,10 +180,17 @@ def plan_scenario(ctx, i, sc, directed_runs=None, flavours=("hooks", "asan")):
     judge_run(ctx, "hooks", sc, base, runs["base"][0], "rc=0", res.err)
     rng = ctx.sub_rng("faults", i)
     thorough = ctx.tier == "thorough"
+    npoints = len(gen.fault_points(dates)) * len(gen.resources(sc))
     if directed_runs is not None:
         todo = directed_runs
     else:
+        # thorough: every resource x every fault point x every injection path; quick: the path rotates over the enumeration and the
+        # enumeration is thinned evenly to ~200 schedules per scenario
         todo = gen.single_faults(sc, dates, rng, all_paths=thorough, limit=None if thorough else ctx.size(200, 200))
+        ctx.count("enumeration.fault_points(resource x date)", npoints)
+        ctx.count("enumeration.single_fault_schedules_run", len(todo))
+        if len(todo) >= npoints:
+            ctx.count("enumeration.scenarios_with_every_fault_point_run")
         todo += gen.pair_faults(sc, dates, rng, ctx.size(10, 60))
     ctx.count("scenarios_enumerated")
     ctx.count("fault_schedules_enumerated", len(todo))
